@@ -66,7 +66,8 @@ pub mod verif_proofs {
     fn sequence(steps: usize, maxwin: u8) {
         let init = initial_secret();
         let sender = sender_materials(init);
-        let max_fwd = sym::any_below(maxwin + 1) as u32;
+        // the forward window may exceed the out-of-order window by one (jumps larger than the ooo window)
+        let max_fwd = sym::any_below(maxwin + 2) as u32;
         let ooo = sym::any_below(maxwin + 1) as u32;
         let mut y = DecryptionRatchet::init(Secret::from_bytes(init));
         // reference model: next expected generation and which generations were handed out
